@@ -7,3 +7,5 @@ mkdir -p .build/runs evidence replays
 cp -n /repo/Cargo.lock harness/Cargo.lock 2>/dev/null || true
 python3 tools/gen_manifest.py >/dev/null
 VERIF_TIER=quick ./check build
+# reference-model self-check against published values (Sharma's CIEDE2000 pairs, CAM16 worked example, HSLuv, Oklab)
+(cd harness && RUSTFLAGS="--cfg palette_verif" CARGO_TARGET_DIR="$(pwd)/../.build/native" cargo test --offline --lib -q >/dev/null 2>&1) || { echo "reference model self-test failed"; exit 1; }
